@@ -18,7 +18,7 @@ CHECKS = {
         text=(
             "The AKAI pipeline is modelled in full in Lean (partition scan, volume table, SAT decode, chain walk, file table, sample header, data window, naming, pairing, transcoder, RIFF assembly: lean/Smpl/Model/Akai*.lean) and that model is the one the driver runs. "
             "Proved, for all inputs: get_path resolves any well-formed chain in any order (C07_getPath_wf); a FileStream over any chain order reads exactly the concatenation of its sectors for any position/size, incl. reads ending exactly on a sector boundary (mkChain_isFile, readPieces_spec); "
-            "the parser's segment content is that logical content (C01_segment_eq); WAV structure (C04), byte-order routing (C12). Composition on the model: C01_realize_sample (on a complete partition a sample entry whose chain resolves to `path` is realised with exactly the bytes [140+2*start, 140+2*end) of the chain's sectors in chain order cut to the entry size), via C01_prefix_is_segment / C01_holey_is_segment / C01_file_audio; C07_akai_path_follows_sat (the resolved chain follows the SAT); struct layouts of partition header, volume entry, file entry, loop entry, sample header regenerated from /repo and compared with frozen tables (Props/Layouts). From the raw image: C01_sample_from_image — if the partition at byte pos parses, and the RAW segment allocation table of its header holds a file chain c (each word names the next sector, the last is 0xC000) starting at the entry's start sector and lying inside the partition, then the entry is realised as the sample with exactly the bytes [140+2*start, 140+2*end) of c's sectors in chain order cut to the entry's size, whatever else the table holds (parsePartition_links + C07_akai_wf + C01_realize_sample). The writer's side: C01_header_roundtrip — a 140-byte sample header written field by field (HdrImg.bytes: type, root note, 12 name codes, loop mode, tuning bytes, word count, start/end markers, eight loop entries, rate; every other byte arbitrary) parses back to exactly the values written, whatever follows it; C01_written_sample composes it with the above: a file whose chain content is such a header followed by `data` is realised with those header values and the audio data[2*start, 2*end), for every sector order. fileTable_written / C01_written_volume — a volume directory written as n well-formed 24-byte entries followed by a slot carrying the end marker 0xD747 parses to exactly those entries, whatever follows and whatever the unspecified bytes hold, and the volume whose directory chain holds such a table is realised with exactly those entries, each through realizeFile. C01_written_partition — a partition written as size, two zero bytes, the 194 magic bytes, two free bytes, 2F 00, one hundred 16-byte volume slots, the 11386 table words and a body filling the declared size, placed anywhere in a file, parses to exactly the written volume slots and the decoded table, its window being the written bytes, the scan continuing right after it (parseVolEntries_written, words16_encWords). C01_written_disc / C01_written_tree — a file that is a sequence of written partitions is scanned into exactly those partitions, lettered consecutively, and the tree the tool builds from it is the tree of those partitions (volumes through C01_written_volume, sample files through C01_written_sample). NOT yet closed as one theorem: exportOf (tree of a written disc) = expected files (naming, pairing and WAV assembly are proved separately in C04-C06, C12). "
+            "the parser's segment content is that logical content (C01_segment_eq); WAV structure (C04), byte-order routing (C12). Composition on the model: C01_realize_sample (on a complete partition a sample entry whose chain resolves to `path` is realised with exactly the bytes [140+2*start, 140+2*end) of the chain's sectors in chain order cut to the entry size), via C01_prefix_is_segment / C01_holey_is_segment / C01_file_audio; C07_akai_path_follows_sat (the resolved chain follows the SAT); struct layouts of partition header, volume entry, file entry, loop entry, sample header regenerated from /repo and compared with frozen tables (Props/Layouts). From the raw image: C01_sample_from_image — if the partition at byte pos parses, and the RAW segment allocation table of its header holds a file chain c (each word names the next sector, the last is 0xC000) starting at the entry's start sector and lying inside the partition, then the entry is realised as the sample with exactly the bytes [140+2*start, 140+2*end) of c's sectors in chain order cut to the entry's size, whatever else the table holds (parsePartition_links + C07_akai_wf + C01_realize_sample). The writer's side: C01_header_roundtrip — a 140-byte sample header written field by field (HdrImg.bytes: type, root note, 12 name codes, loop mode, tuning bytes, word count, start/end markers, eight loop entries, rate; every other byte arbitrary) parses back to exactly the values written, whatever follows it; C01_written_sample composes it with the above: a file whose chain content is such a header followed by `data` is realised with those header values and the audio data[2*start, 2*end), for every sector order. fileTable_written / C01_written_volume — a volume directory written as n well-formed 24-byte entries followed by a slot carrying the end marker 0xD747 parses to exactly those entries, whatever follows and whatever the unspecified bytes hold, and the volume whose directory chain holds such a table is realised with exactly those entries, each through realizeFile. C01_written_partition — a partition written as size, two zero bytes, the 194 magic bytes, two free bytes, 2F 00, one hundred 16-byte volume slots, the 11386 table words and a body filling the declared size, placed anywhere in a file, parses to exactly the written volume slots and the decoded table, its window being the written bytes, the scan continuing right after it (parseVolEntries_written, words16_encWords). C01_written_disc / C01_written_tree — a file that is a sequence of written partitions is scanned into exactly those partitions, lettered consecutively, and the tree the tool builds from it is the tree of those partitions (volumes through C01_written_volume, sample files through C01_written_sample). The tool's side, on the tree (Props/C01E): C01_export_volume — a volume realised without error whose sample files carry clean (word characters and inner blanks), pairwise distinct names that are no pair halves is exported as exactly one file per sample, in directory order, at <dir>/<stored name>.wav (C06_clean_names_kept for the names, combine_no_stereo for the pairing loop); C01_export_mono_wav — each such file is the RIFF header buildWav computes followed by exactly the whole 16-bit frames of the sample's data window, in order (through make_transcoder: C12_single, the tool's 4096-byte blocks); C01_export_tree — for a tree all of whose volumes are of that kind and whose volume names are clean and pairwise distinct per partition, export writes partition by partition, volume by volume, file by file exactly those WAVs at <partition folder>/<volume>/<name>.wav and nothing else (the partition folder names are whatever the naming assigns to `A:`, `B:` ...: a premise). NOT yet closed: the last composition exportAll(written disc bytes) = that list as ONE statement (C01_written_tree gives the tree, C01_export_tree the files; the written volumes' nodes have to be put into the `sampleNode` form), and volumes with pairs or names that need sanitising (C05 / C06 theorems apply separately). "
             "Tie: logical discs -> independent Python writer -> real `export` and `ls` at every node vs the Lean model byte-for-byte (hash of every exported file), with head-not-lowest chains, exact-fill files (k*8192-140), empty windows, rate 0, directory runs; oracle computed from the logical model. "
             "Found and repaired through this check: D1, D2, empty-window export (fix 170824f)."
         ),
